@@ -990,7 +990,8 @@ class Lower:
                 e = 'cstring__eq(%s, %s)' % (self.str_ptr(a0), self.str_ptr(args[1]))
                 return e if name == 'operator==' else '(!%s)' % e
             if name == 'operator+':
-                return 'cstring__opaque()'
+                # a + b on strings: a prelude may observe it (CSTRING_CONCAT, out.h: path names); by default the result is opaque
+                return 'CSTRING_CONCAT(%s, %s)' % (self.str_val(a0), self.str_val(args[1]))
             raise LowerError("string " + name)
         if cls == 'umap':
             m = self.types.mangle(t.args[0]) + '_' + self.types.mangle(t.args[1])
@@ -1033,6 +1034,26 @@ class Lower:
                 raise LowerError("operator %s on handle %s" % (name, hn))
             return '%s__%s(%s)' % (hn, opn, ', '.join(self.ex(x) for x in args))
         raise LowerError("operator call %s on %s (%r)" % (name, cls, t))
+
+    def str_val(self, a):
+        """string operand of operator+ as a value; literals carry a hash of their characters (content identity)"""
+        x = strip(a)
+        while x.get('kind') in ('ImplicitCastExpr', 'CXXConstructExpr', 'MaterializeTemporaryExpr', 'CXXBindTemporaryExpr') and kids(x) and x.get('kind') != 'StringLiteral':
+            y = strip(kids(x)[0])
+            if y.get('kind') == 'StringLiteral':
+                x = y
+                break
+            if x.get('kind') == 'CXXConstructExpr' and len(kids(x)) != 1:
+                break
+            x = y
+        if x.get('kind') == 'StringLiteral':
+            import zlib
+            txt = x.get('value', '')
+            return 'CSTRING_LIT(%s, %dUL)' % (txt, zlib.crc32(txt.encode()) + (len(txt) << 32))
+        cls, _ = self.types.classify(qt(strip(a)))
+        if cls == 'str':
+            return self.ex(a)
+        return 'cstring__opaque()'
 
     def str_ptr(self, a):
         s = strip(a)
